@@ -885,7 +885,7 @@ pub fn determinism(o: &Opts) -> R<()> {
     for (name, code, n) in &progs {
         let mut seen: BTreeMap<String, usize> = BTreeMap::new();
         for _ in 0..*n {
-            let r = vmrun::analyze(code, &lim, ScriptedWatchdog::new(1_000_000, None, 50_000_000));
+            let r = vmrun::analyze(code, &lim, ScriptedWatchdog::new(16, None, 500_000));
             let key = match &r {
                 // conflict explanations are not part of the result (they quote type-variable numbers)
                 Ok(Ok(l)) => format!("ok:{}", J::Array(crate::layouts::entries_json(l).into_iter().map(|mut e| { e.as_object_mut().map(|o| o.remove("idx")); e }).collect())),
